@@ -491,6 +491,12 @@ def reset_completeness(ctx, rule="C09.reset"):
         if dotted(lp.iter) == "self.run_progs" and isinstance(lp.target, ast.Name):
             every = every or any(isinstance(n, ast.Call) and isinstance(n.func, ast.Attribute) and n.func.attr == "_clear_regrefs"
                                  and dotted(n.func.value) == lp.target.id for n in ast.walk(lp))
+    # ... and of every RegRef of such a program, deleted ones included (a measured-then-deleted ancilla keeps its RegRef)
+    cr = ctx.tree.func("program.py", "Program._clear_regrefs")
+    loops_ = [n for n in walk_no_nested(cr.node) if isinstance(n, ast.For)]
+    allrefs = any("self.reg_refs" in derives(cr.node, lp_.iter).attrs for lp_ in loops_)
+    ctx.ob(rule, cr.site, allrefs, "" if allrefs else "_clear_regrefs does not visit self.reg_refs (all RegRefs): the outcome stored in a "
+           "deleted subsystem survives the reset and is inherited by successor programs", role="clears-all-regrefs", line=cr.node.lineno)
     if clears:
         ctx.ob(rule, f.site, every, "" if every else "reset clears the measured values of some of the programs that were run only: "
                "the segments deep-copy their RegRefs from their parents, so the others keep their measured values and "
